@@ -4,6 +4,8 @@ From I18n Require Import Lib.Outcome Lib.CFmtSyntax Generated.CInfo Model.FmtC S
 From I18n Require Import Model.FmtCPy Generated.FmtCSrc Proofs.FmtCSrc Proofs.FmtCSrcConv.
 Import ListNotations.
 Local Open Scope Z_scope.
+(* a proof that diverges after an edit of the translated code must fail, not hang the check *)
+Set Default Timeout 120.
 
 (* ------------------------------------------------------------------ *)
 (* every directive of the scanner has digit strings in front of '$'     *)
@@ -252,12 +254,14 @@ Theorem src_formatstring_init_eq : forall maxd (o_finditer : list N -> list cmat
   = emb (fmtc_parse maxd s).
 Proof.
   intros maxd o_finditer s Hfo. unfold src_formatstring_init, fmtc_parse. cbv zeta.
-  pose (K := fun (items : list item) (st : pstate) =>
-    cbind (src_formatstring_init_loop2 s (py_range 1 (c_NL_ARGMAX + 1)) (st_entries st) [])
-      (fun '(m, args) =>
-         if negb (FmtCPy.nonempty m) then
-           cbind (src_formatstring_init_loop3 s (py_enumerate 1 args)) (fun _ => CRet (items, args, st_warn st))
-         else CAssert)).
+  match goal with |- context [src_formatstring_init_loop2 s ?R _ _] =>
+    pose (K := fun (items : list item) (st : pstate) =>
+      cbind (src_formatstring_init_loop2 s R (st_entries st) [])
+        (fun '(m, args) =>
+           if negb (FmtCPy.nonempty m) then
+             cbind (src_formatstring_init_loop3 s (py_enumerate 1 args)) (fun _ => CRet (items, args, st_warn st))
+           else CAssert))
+  end.
   match goal with |- cbind (cbind ?L _) _ = _ =>
     transitivity (cbind (cbind (after_scan model_prefix s L) (fun '(items, st) => K items st))
                         (fun '(items, args, w) => CRet (mkfs items args w)))
@@ -270,8 +274,9 @@ Proof.
   destruct (run maxd (fmtc_tokens (List.length s) s) 0 st_init) as [[items st]|e|c]; [| reflexivity | destruct c; reflexivity].
   cbn [obind emb cbind app]. unfold K. rewrite gap_factor.
   unfold py_range.
-  assert (Hn : 1 + Z.of_nat (Z.to_nat (c_NL_ARGMAX + 1 - 1)) = c_NL_ARGMAX + 1)
-    by (rewrite Z2Nat.id; [lia | unfold c_NL_ARGMAX; lia]).
+  match goal with |- context [zrange 1 ?n] =>
+    assert (Hn : 1 + Z.of_nat n = c_NL_ARGMAX + 1) by (rewrite Z2Nat.id; [lia | unfold c_NL_ARGMAX; lia])
+  end.
   rewrite (loop2_eq s _ 1 (st_entries st) [] (List.length (st_entries st)) (le_n _) Hn).
   destruct (collect s (List.length (st_entries st)) 1 (st_entries st)) as [args|e|c]; [| reflexivity | destruct c; reflexivity].
   cbn [obind emb cbind app]. rewrite loop3_eq.
